@@ -608,13 +608,13 @@ def plan(tier, seed):
         shards.append({'kind': 'ports', 'impl': impl, 'v1': [0, 0]})
         for q in range(4):
             shards.append({'kind': 'pairs', 'impl': impl, 'v1': [q * 64, q * 64 + 64]})
-    nprog = 1600 if tier == 'quick' else 48000
+    nprog = 1600 if tier == 'quick' else 24000
     for i in range(16):
         shards.append({'kind': 'prog', 'tier': tier, 'n': nprog // 16, 'seed': shard_seed(seed, PROPERTY, 'p%d' % i)})
-    nhist = 3000 if tier == 'quick' else 30000
+    nhist = 3000 if tier == 'quick' else 12000
     for i in range(16):
-        shards.append({'kind': 'hist', 'n': nhist // 16, 'steps': 40 if tier == 'quick' else 100, 'seed': shard_seed(seed, PROPERTY, 'h%d' % i)})
-    nseq = 8000 if tier == 'quick' else 400000
+        shards.append({'kind': 'hist', 'n': nhist // 16, 'steps': 40 if tier == 'quick' else 80, 'seed': shard_seed(seed, PROPERTY, 'h%d' % i)})
+    nseq = 8000 if tier == 'quick' else 160000
     for i in range(8):
         shards.append({'kind': 'seq3', 'n': nseq // 8, 'seed': shard_seed(seed, PROPERTY, 's%d' % i)})
     return shards
